@@ -19,6 +19,7 @@ def register(prop, J):
                     "concurrent call must observe exactly the outcome the C02 / C08 oracles prescribe for it alone (no leakage of "
                     "keys, parameters, status or error objects)",
          level_note="the Go scheduler is not owned: this samples schedules, it does not enumerate them; a race report does not "
-                    "shrink (the replay file is the report plus the command line); TestC17D2 replaces the package-level rng",
+                    "shrink (the replay file is the report plus the command line); TestC17D2 replaces the package-level rng; the "
+                    "root-module run (race-v1) has no custom-typeref part (the root module has no such registry)",
          technique="randomised stress under the race detector (rapid-generated workloads) + serial differential oracle",
          design_ref="2/C17")
